@@ -14,6 +14,7 @@ fn main() {
         "c01v" => c01::run_verifier(&args),
         "c01e" => c01::run_e2e(&args),
         "c01s" => c01::run_sessions(&args),
+        "c01i" => c01::run_impostor(&args),
         other => {
             eprintln!("unknown subcommand {other}");
             std::process::exit(2);
@@ -1370,6 +1371,65 @@ mod c01 {
 
     struct World {
         keys: BTreeMap<&'static str, SecretKey>,
+        /// the concrete small-order point standing for the spec's weak key "w1" in this run
+        weak: Option<PublicKey>,
+    }
+
+    const WEAK: &str = "w1";
+
+    /// Encodings of the eight small-order points of edwards25519 (plus the non-canonical and
+    /// sign-bit spellings) that ed25519-dalek itself takes as a (weak) verifying key.
+    fn small_order_encodings() -> Vec<[u8; 32]> {
+        let hex = [
+            "0100000000000000000000000000000000000000000000000000000000000000", // order 1
+            "0000000000000000000000000000000000000000000000000000000000000000", // order 4
+            "0000000000000000000000000000000000000000000000000000000000000080", // order 4
+            "26e8958fc2b227b045c3f489f2ef98f0d5dfac05d3c63339b13802886d53fc05", // order 8
+            "26e8958fc2b227b045c3f489f2ef98f0d5dfac05d3c63339b13802886d53fc85", // order 8
+            "c7176a703d4dd84fba3c0b760d10670f2a2053fa2c39ccc64ec7fd7792ac037a", // order 8
+            "c7176a703d4dd84fba3c0b760d10670f2a2053fa2c39ccc64ec7fd7792ac03fa", // order 8
+            "0100000000000000000000000000000000000000000000000000000000000080", // order 1, sign bit set
+        ];
+        let mut cands: Vec<[u8; 32]> = hex
+            .iter()
+            .map(|h| {
+                let v = HEXLOWER.decode(h.as_bytes()).unwrap_or_else(|e| panic!("harness: bad hex constant {h}: {e}"));
+                <[u8; 32]>::try_from(v).unwrap_or_else(|v| panic!("harness: constant {h} has {} bytes", v.len()))
+            })
+            .collect();
+        // y = p - 1 (order 2), and the non-canonical spellings y = p (= 0) and y = p + 1 (= 1), each with either sign bit
+        for first in [0xecu8, 0xed, 0xee] {
+            for last in [0x7fu8, 0xff] {
+                let mut b = [0xffu8; 32];
+                b[0] = first;
+                b[31] = last;
+                cands.push(b);
+            }
+        }
+        let out: Vec<[u8; 32]> = cands
+            .into_iter()
+            .filter(|b| ed25519_dalek::VerifyingKey::from_bytes(b).map(|v| v.is_weak()).unwrap_or(false))
+            .collect();
+        assert!(out.len() >= 8, "harness: expected the 8 small-order points to be weak verifying keys, got {}", out.len());
+        out
+    }
+
+    /// The universal forgeries: s = 0 with R any small-order point (and R = the presented key).
+    /// For a small-order key A, [0]B = R + [k]A holds for exactly one small-order R per transcript.
+    fn forgeries(key: Option<[u8; 32]>) -> Vec<Vec<u8>> {
+        let mut rs = small_order_encodings();
+        if let Some(k) = key {
+            if !rs.contains(&k) {
+                rs.push(k);
+            }
+        }
+        rs.iter()
+            .map(|r| {
+                let mut sig = r.to_vec();
+                sig.extend_from_slice(&[0u8; 32]);
+                sig
+            })
+            .collect()
     }
 
     impl World {
@@ -1384,15 +1444,21 @@ mod c01 {
                     }
                 }
             }
-            Self { keys }
+            Self { keys, weak: None }
         }
         fn sk(&self, k: &str) -> &SecretKey {
             self.keys.get(k).unwrap_or_else(|| panic!("harness: unknown key name {k}"))
         }
         fn pk(&self, k: &str) -> PublicKey {
+            if k == WEAK {
+                return self.weak.expect("harness: weak key not set");
+            }
             self.sk(k).public()
         }
         fn name_of(&self, pk: &PublicKey) -> String {
+            if self.weak == Some(*pk) {
+                return WEAK.to_string();
+            }
             self.keys.iter().find(|(_, sk)| sk.public() == *pk).map(|(n, _)| n.to_string()).unwrap_or_else(|| format!("foreign:{pk}"))
         }
     }
@@ -1487,8 +1553,25 @@ mod c01 {
         }
     }
 
+    /// One offer; an offer that involves the weak key is run once per small-order point that
+    /// `EndpointId::from_bytes` accepts (exhaustively, not sampled).
     fn verifier_case(c: &Value, rng: &mut ChaCha8Rng) -> R {
-        let w = World::new(rng);
+        let mut w = World::new(rng);
+        let o = c.get("o").expect("o");
+        if fs(o, "nkey") != WEAK && fs(o, "ekey") != WEAK {
+            return verifier_case_in(c, &w, rng);
+        }
+        for enc in small_order_encodings() {
+            // a stricter from_bytes that refuses small-order ids leaves nothing to dial or present
+            if let Ok(pk) = PublicKey::from_bytes(&enc) {
+                w.weak = Some(pk);
+                verifier_case_in(c, &w, rng)?;
+            }
+        }
+        Ok(())
+    }
+
+    fn verifier_case_in(c: &Value, w: &World, rng: &mut ChaCha8Rng) -> R {
         let side = fs(c, "side");
         let o = c.get("o").expect("o");
         let (form, nkey, eecls, ekey) = (fs(o, "form"), fs(o, "nkey"), fs(o, "ee"), fs(o, "ekey"));
@@ -1499,8 +1582,10 @@ mod c01 {
 
         // --- what the peer presents
         let msg = transcript(client, rng);
-        let mut ee = build_ee(&w, eecls, ekey, rng);
+        let mut ee = build_ee(w, eecls, ekey, rng);
         let mut sig: Vec<u8> = match signer {
+            // replaced below by the whole list of universal forgeries
+            "forgery" => Vec::new(),
             "none" => {
                 let n = [64usize, 64, 64, 0, 63, 65][rng.random_range(0..6)];
                 let mut v = vec![0u8; n];
@@ -1526,11 +1611,17 @@ mod c01 {
             sig = s;
             scheme_id = sch;
         }
+        let sigs: Vec<Vec<u8>> = if signer == "forgery" {
+            let key = if ekey == "none" { None } else { Some(*w.pk(ekey).as_bytes()) };
+            forgeries(key)
+        } else {
+            vec![sig]
+        };
         let inters: Vec<Vec<u8>> = (0..inter)
             .map(|_| match rng.random_range(0..3) {
                 0 => spki(SecretKey::from_bytes(&rng.random()).public().as_bytes()),
                 1 => ee.clone(),
-                _ => build_ee(&w, "garbage", "none", rng),
+                _ => build_ee(w, "garbage", "none", rng),
             })
             .collect();
         let input = format!(
@@ -1540,7 +1631,7 @@ mod c01 {
 
         // --- certificate check
         let got_cert: Result<(), String> = if client {
-            let name = build_name(&w, form, nkey, rng)?;
+            let name = build_name(w, form, nkey, rng)?;
             let input = format!("{input} name={name}");
             // name layer: decode against what the spec allows
             let allowed = fset(c, "decode");
@@ -1559,7 +1650,7 @@ mod c01 {
                         if r.is_ok() {
                             return Err(mm("verify_server_cert for a name that does not decode", "reject", "accept", &input));
                         }
-                        return check_sig(client, &msg, &ee, scheme_id, &sig, sig_ok, &input);
+                        return check_sigs(client, &msg, &ee, scheme_id, &sigs, sig_ok, &input);
                     }
                     r
                 }
@@ -1571,7 +1662,15 @@ mod c01 {
             let what = if client { "verify_server_cert" } else { "verify_client_cert" };
             return Err(mm(what, if cert_ok { "accept" } else { "reject" }, format!("{got_cert:?}"), &input));
         }
-        check_sig(client, &msg, &ee, scheme_id, &sig, sig_ok, &input)
+        check_sigs(client, &msg, &ee, scheme_id, &sigs, sig_ok, &input)
+    }
+
+    fn check_sigs(client: bool, msg: &[u8], ee: &[u8], scheme: u16, sigs: &[Vec<u8>], sig_ok: bool, input: &str) -> R {
+        for sig in sigs {
+            let input = if sigs.len() > 1 { format!("{input} sig={}", HEXLOWER.encode(sig)) } else { input.to_string() };
+            check_sig(client, msg, ee, scheme, sig, sig_ok, &input)?;
+        }
+        Ok(())
     }
 
     fn check_sig(client: bool, msg: &[u8], ee: &[u8], scheme: u16, sig: &[u8], sig_ok: bool, input: &str) -> R {
@@ -1840,6 +1939,288 @@ mod c01 {
         let rt = tokio::runtime::Builder::new_multi_thread().worker_threads(4).enable_all().build().expect("runtime");
         for c in &cases {
             let obs = rt.block_on(session_case(c, seed));
+            out.emit(&obs);
+        }
+        out.finish();
+    }
+
+    // ------------------------------------------------------------------ the key-less impostor, end to end
+    /// A peer that holds no secret key at all: it presents the neutral element of edwards25519 (a point
+    /// of order 1 that `EndpointId::from_bytes` accepts) as its raw public key and answers every request
+    /// for a signature with the constant universal forgery R = neutral element, s = 0.  Plain noq/rustls.
+    mod impostor {
+        use std::sync::Arc;
+
+        use noq::crypto::rustls::{QuicClientConfig, QuicServerConfig};
+        use rustls::{
+            DigitallySignedStruct, DistinguishedName, SignatureAlgorithm, SignatureScheme,
+            client::{
+                ResolvesClientCert,
+                danger::{HandshakeSignatureValid, ServerCertVerified, ServerCertVerifier},
+            },
+            pki_types::{CertificateDer, ServerName, SubjectPublicKeyInfoDer, UnixTime},
+            server::{
+                ClientHello, ResolvesServerCert,
+                danger::{ClientCertVerified, ClientCertVerifier},
+            },
+            sign::{CertifiedKey, Signer, SigningKey},
+        };
+
+        pub const WEAK_KEY: [u8; 32] = {
+            let mut k = [0u8; 32];
+            k[0] = 1;
+            k
+        };
+
+        fn weak_spki() -> SubjectPublicKeyInfoDer<'static> {
+            SubjectPublicKeyInfoDer::from(super::spki(&WEAK_KEY))
+        }
+
+        #[derive(Debug, Clone)]
+        struct NoSecret;
+        impl SigningKey for NoSecret {
+            fn choose_scheme(&self, offered: &[SignatureScheme]) -> Option<Box<dyn Signer>> {
+                offered.contains(&SignatureScheme::ED25519).then(|| Box::new(self.clone()) as Box<dyn Signer>)
+            }
+            fn algorithm(&self) -> SignatureAlgorithm {
+                SignatureAlgorithm::ED25519
+            }
+            fn public_key(&self) -> Option<SubjectPublicKeyInfoDer<'_>> {
+                Some(weak_spki())
+            }
+        }
+        impl Signer for NoSecret {
+            fn sign(&self, _message: &[u8]) -> Result<Vec<u8>, rustls::Error> {
+                let mut sig = vec![0u8; 64];
+                sig[0] = 1;
+                Ok(sig)
+            }
+            fn scheme(&self) -> SignatureScheme {
+                SignatureScheme::ED25519
+            }
+        }
+
+        #[derive(Debug)]
+        struct PresentWeakKey(Arc<CertifiedKey>);
+        impl PresentWeakKey {
+            fn new() -> Self {
+                let cert = CertificateDer::from(weak_spki().to_vec());
+                Self(Arc::new(CertifiedKey::new(vec![cert], Arc::new(NoSecret))))
+            }
+        }
+        impl ResolvesClientCert for PresentWeakKey {
+            fn resolve(&self, _: &[&[u8]], _: &[SignatureScheme]) -> Option<Arc<CertifiedKey>> {
+                Some(self.0.clone())
+            }
+            fn only_raw_public_keys(&self) -> bool {
+                true
+            }
+            fn has_certs(&self) -> bool {
+                true
+            }
+        }
+        impl ResolvesServerCert for PresentWeakKey {
+            fn resolve(&self, _: ClientHello<'_>) -> Option<Arc<CertifiedKey>> {
+                Some(self.0.clone())
+            }
+            fn only_raw_public_keys(&self) -> bool {
+                true
+            }
+        }
+
+        /// The impostor does not care who it talks to.
+        #[derive(Debug)]
+        struct AcceptAnyone;
+        impl ServerCertVerifier for AcceptAnyone {
+            fn verify_server_cert(&self, _: &CertificateDer<'_>, _: &[CertificateDer<'_>], _: &ServerName<'_>, _: &[u8], _: UnixTime) -> Result<ServerCertVerified, rustls::Error> {
+                Ok(ServerCertVerified::assertion())
+            }
+            fn verify_tls12_signature(&self, _: &[u8], _: &CertificateDer<'_>, _: &DigitallySignedStruct) -> Result<HandshakeSignatureValid, rustls::Error> {
+                Ok(HandshakeSignatureValid::assertion())
+            }
+            fn verify_tls13_signature(&self, _: &[u8], _: &CertificateDer<'_>, _: &DigitallySignedStruct) -> Result<HandshakeSignatureValid, rustls::Error> {
+                Ok(HandshakeSignatureValid::assertion())
+            }
+            fn supported_verify_schemes(&self) -> Vec<SignatureScheme> {
+                vec![SignatureScheme::ED25519]
+            }
+            fn requires_raw_public_keys(&self) -> bool {
+                true
+            }
+        }
+        impl ClientCertVerifier for AcceptAnyone {
+            fn root_hint_subjects(&self) -> &[DistinguishedName] {
+                &[]
+            }
+            fn verify_client_cert(&self, _: &CertificateDer<'_>, _: &[CertificateDer<'_>], _: UnixTime) -> Result<ClientCertVerified, rustls::Error> {
+                Ok(ClientCertVerified::assertion())
+            }
+            fn verify_tls12_signature(&self, _: &[u8], _: &CertificateDer<'_>, _: &DigitallySignedStruct) -> Result<HandshakeSignatureValid, rustls::Error> {
+                Ok(HandshakeSignatureValid::assertion())
+            }
+            fn verify_tls13_signature(&self, _: &[u8], _: &CertificateDer<'_>, _: &DigitallySignedStruct) -> Result<HandshakeSignatureValid, rustls::Error> {
+                Ok(HandshakeSignatureValid::assertion())
+            }
+            fn supported_verify_schemes(&self) -> Vec<SignatureScheme> {
+                vec![SignatureScheme::ED25519]
+            }
+            fn requires_raw_public_keys(&self) -> bool {
+                true
+            }
+        }
+
+        pub fn client_config(alpn: &[u8]) -> Result<noq::ClientConfig, String> {
+            let mut crypto = rustls::ClientConfig::builder_with_provider(iroh::tls::default_provider())
+                .with_protocol_versions(&[&rustls::version::TLS13])
+                .map_err(|e| e.to_string())?
+                .dangerous()
+                .with_custom_certificate_verifier(Arc::new(AcceptAnyone))
+                .with_client_cert_resolver(Arc::new(PresentWeakKey::new()));
+            crypto.alpn_protocols = vec![alpn.to_vec()];
+            crypto.enable_sni = false;
+            Ok(noq::ClientConfig::new(Arc::new(QuicClientConfig::try_from(crypto).map_err(|e| e.to_string())?)))
+        }
+
+        pub fn server_config(alpn: &[u8]) -> Result<noq::ServerConfig, String> {
+            let mut crypto = rustls::ServerConfig::builder_with_provider(iroh::tls::default_provider())
+                .with_protocol_versions(&[&rustls::version::TLS13])
+                .map_err(|e| e.to_string())?
+                .with_client_cert_verifier(Arc::new(AcceptAnyone))
+                .with_cert_resolver(Arc::new(PresentWeakKey::new()));
+            crypto.alpn_protocols = vec![alpn.to_vec()];
+            Ok(noq::ServerConfig::with_crypto(Arc::new(QuicServerConfig::try_from(crypto).map_err(|e| e.to_string())?)))
+        }
+    }
+
+    #[derive(Serialize, Default)]
+    struct ImpObs {
+        idx: u64,
+        env_error: Option<String>,
+        /// the real iroh endpoint ended up with an established connection
+        established: bool,
+        remote: String,
+        error: String,
+    }
+
+    async fn impostor_case(c: &Value, seed: u64) -> ImpObs {
+        let idx = c.get("idx").and_then(|v| v.as_u64()).expect("idx");
+        let mut rng = case_rng(seed, idx, 0);
+        let mut obs = ImpObs { idx, ..Default::default() };
+        let Ok(weak_id) = PublicKey::from_bytes(&impostor::WEAK_KEY) else {
+            obs.error = "the weak point is not an endpoint id".into();
+            return obs;
+        };
+        let (real, real_addr) = match bind(SecretKey::from_bytes(&rng.random())).await {
+            Ok(x) => x,
+            Err(e) => {
+                obs.env_error = Some(e);
+                return obs;
+            }
+        };
+        let lo: SocketAddr = (std::net::Ipv4Addr::LOCALHOST, 0).into();
+        if fs(c, "side") == "server" {
+            // the real endpoint accepts; a key-less client claims to be the weak id
+            let accept = tokio::spawn({
+                let real = real.clone();
+                async move {
+                    let incoming = real.accept().await?;
+                    Some(incoming.await.map(|conn| conn.remote_id()).map_err(|e| format!("{e:?}")))
+                }
+            });
+            let cfg = match impostor::client_config(ALPN) {
+                Ok(c) => c,
+                Err(e) => {
+                    obs.env_error = Some(e);
+                    return obs;
+                }
+            };
+            let imp = match noq::Endpoint::client(lo) {
+                Ok(e) => e,
+                Err(e) => {
+                    obs.env_error = Some(format!("impostor bind: {e}"));
+                    return obs;
+                }
+            };
+            let connecting = match imp.connect_with(cfg, real_addr, "localhost") {
+                Ok(c) => c,
+                Err(e) => {
+                    obs.env_error = Some(format!("impostor connect: {e}"));
+                    return obs;
+                }
+            };
+            // what the impostor sees is irrelevant (and racy): the accepting endpoint decides
+            let imp_side = tokio::time::timeout(Duration::from_secs(30), connecting).await;
+            match tokio::time::timeout(Duration::from_secs(30), accept).await {
+                Ok(Ok(Some(Ok(id)))) => {
+                    obs.established = true;
+                    obs.remote = if id == weak_id { WEAK.into() } else { id.to_string() };
+                }
+                Ok(Ok(Some(Err(e)))) => obs.error = e,
+                Ok(Ok(None)) => obs.env_error = Some("endpoint closed before accepting".into()),
+                Ok(Err(e)) => obs.env_error = Some(format!("accept task: {e}")),
+                Err(_) => obs.env_error = Some("the accepting endpoint saw no handshake within 30 s".into()),
+            }
+            drop(imp_side);
+            imp.close(0u32.into(), b"");
+        } else {
+            // the real endpoint dials the weak id; the address belongs to a key-less server
+            let cfg = match impostor::server_config(ALPN) {
+                Ok(c) => c,
+                Err(e) => {
+                    obs.env_error = Some(e);
+                    return obs;
+                }
+            };
+            let imp = match noq::Endpoint::server(cfg, lo) {
+                Ok(e) => e,
+                Err(e) => {
+                    obs.env_error = Some(format!("impostor bind: {e}"));
+                    return obs;
+                }
+            };
+            let imp_addr = match imp.local_addr() {
+                Ok(a) => a,
+                Err(e) => {
+                    obs.env_error = Some(format!("impostor addr: {e}"));
+                    return obs;
+                }
+            };
+            let task = tokio::spawn({
+                let imp = imp.clone();
+                async move {
+                    while let Some(incoming) = imp.accept().await {
+                        tokio::spawn(async move {
+                            if let Ok(conn) = incoming.await {
+                                conn.closed().await;
+                            }
+                        });
+                    }
+                }
+            });
+            let target = EndpointAddr::from_parts(weak_id, [TransportAddr::Ip(imp_addr)]);
+            match tokio::time::timeout(Duration::from_secs(30), real.connect(target, ALPN)).await {
+                Ok(Ok(conn)) => {
+                    obs.established = true;
+                    let id = conn.remote_id();
+                    obs.remote = if id == weak_id { WEAK.into() } else { id.to_string() };
+                }
+                Ok(Err(e)) => obs.error = format!("{e:?}"),
+                Err(_) => obs.error = "timeout".into(),
+            }
+            imp.close(0u32.into(), b"");
+            task.abort();
+        }
+        real.close().await;
+        obs
+    }
+
+    pub fn run_impostor(args: &Args) {
+        let cases: Vec<Value> = read_ndjson(&args.path("in"));
+        let mut out = NdjsonOut::create(&args.path("out"));
+        let seed: u64 = std::env::var("VERIF_SEED").ok().and_then(|s| s.parse().ok()).unwrap_or(1);
+        let rt = tokio::runtime::Builder::new_multi_thread().worker_threads(4).enable_all().build().expect("runtime");
+        for c in &cases {
+            let obs = rt.block_on(impostor_case(c, seed));
             out.emit(&obs);
         }
         out.finish();
